@@ -51,14 +51,18 @@ func VerifH_c11_blpop() {
 	disp := vNewServer()
 	cs := vNewClientOn(disp)
 	env := &vBlockEnv{other: vNewClientOn(disp), budget: 3}
-	cmd := vChoice("cmd", 3)
-	twoKeys := cmd != 2 && vBool("two-keys")
+	cmd := vChoice("cmd", 5) // BLPOP, BRPOP, BLMOVE, BRPOPLPUSH, BLMPOP
+	twoKeys := (cmd < 2 || cmd == 4) && vBool("two-keys")
+	envChoices := 6
+	if vTier() > 0 {
+		envChoices = 9
+	}
 	var reply respValue
 	vSetEnv(func(point string) bool {
 		if env.budget == 0 {
 			return false
 		}
-		switch vChoice("env", 6) {
+		switch vChoice("env", envChoices) {
 		case 0:
 			return false // nothing happens at this point
 		case 1:
@@ -81,6 +85,18 @@ func VerifH_c11_blpop() {
 			} else {
 				env.push("k", 1)
 			}
+		case 6:
+			// LTRIM drops the head
+			if h, ok := vBulkOf(vCmd(env.other, "LINDEX", "k", "0")); ok {
+				env.taken = append(env.taken, h)
+			}
+			vCmd(env.other, "LTRIM", "k", "1", "-1")
+		case 7:
+			// RENAME moves the whole list away (its elements stay in a list)
+			vCmd(env.other, "RENAME", "k", "k9")
+		case 8:
+			// a competing LMOVE takes the head into another list
+			vCmd(env.other, "LMOVE", "k", "k8", "LEFT", "RIGHT")
 		}
 		env.budget--
 		return true
@@ -101,6 +117,14 @@ func VerifH_c11_blpop() {
 			}
 		case 2:
 			reply = vCmd(cs, "BLMOVE", "k", "dst", "LEFT", "RIGHT", "0")
+		case 3:
+			reply = vCmd(cs, "BRPOPLPUSH", "k", "dst", "0")
+		case 4:
+			if twoKeys {
+				reply = vCmd(cs, "BLMPOP", "0", "2", "k", "k2", "LEFT")
+			} else {
+				reply = vCmd(cs, "BLMPOP", "0", "1", "k", "LEFT")
+			}
 		}
 	})
 	obs := env.other
@@ -113,8 +137,21 @@ func VerifH_c11_blpop() {
 	}
 	// completed: exactly-once delivery
 	var got string
-	if cmd == 2 {
+	if cmd == 2 || cmd == 3 {
 		got, _ = vBulkOf(reply)
+	} else if cmd == 4 {
+		// BLMPOP: [key, [element]]
+		a, ok := vArrayOf(reply)
+		vAssert("blmpop-reply-shape", ok && len(a) == 2)
+		if !ok || len(a) != 2 {
+			return
+		}
+		els, ok2 := vArrayOf(a[1])
+		vAssert("blmpop-one-element", ok2 && len(els) == 1)
+		if !ok2 || len(els) != 1 {
+			return
+		}
+		got, _ = vBulkOf(els[0])
 	} else {
 		a, ok := vArrayOf(reply)
 		vAssert("blocking-pop-reply-shape", ok && len(a) == 2)
@@ -134,10 +171,10 @@ func VerifH_c11_blpop() {
 		vAssert("element-delivered-to-exactly-one-consumer", t != got)
 	}
 	// conservation: pushed = returned + taken by others + still in the lists
-	remaining := vListLen(obs, "k") + vListLen(obs, "k2") + vListLen(obs, "dst")
+	remaining := vListLen(obs, "k") + vListLen(obs, "k2") + vListLen(obs, "dst") + vListLen(obs, "k8") + vListLen(obs, "k9")
 	want := int64(len(env.pushed) - len(env.taken))
-	if cmd != 2 {
-		want-- // BLMOVE keeps its element in dst
+	if cmd != 2 && cmd != 3 {
+		want-- // BLMOVE / BRPOPLPUSH keep their element in dst
 	}
 	vAssert("no-element-lost-or-duplicated", remaining == want)
 	// the connection is back to normal
